@@ -179,3 +179,54 @@ theorem runUntilEvent_lockstep (k : Nat) (e : EvId) (s s2 : KState τ σ) (hf : 
       show s.strip = s from hf] at this
     exact this
   · exact stepN_stopFree _ body fuel k _ _ (addCb_stop_stopFree_except s e hf) h
+
+/-- **`run(until=e)` that ends with an exception** (a crashing callback, an empty agenda, a failed until-event) has also
+followed the uninterrupted run: `k` normal steps in lockstep, then either a step that ends in the same state up to stops
+(however it ends), or an empty agenda in the same state. -/
+theorem runUntilEvent_raised (n : Nat) (e : EvId) (s s' : KState τ σ) (x : Exc)
+    (hf : AllStopFree s) (hp : s.processed e = false)
+    (h : runUntilEvent body fuel n e s = .raised x s') :
+    ∃ k s1, k < n ∧ stepN body fuel k s = .ok s1 ∧
+      ((step body fuel s1).st? = some s'.strip ∨ (step body fuel s1 = .empty ∧ s1 = s'.strip)) := by
+  unfold runUntilEvent at h
+  rw [if_neg (by simp [hp])] at h
+  obtain ⟨k, s2, hk, h1, h2, _⟩ := runLoop_ended body fuel (some e) n (s.addCb e .stop)
+    (by intro s'' hc; rw [hc] at h; cases h)
+  rw [h2] at h
+  have h3 := (runUntilEvent_lockstep body fuel k e s s2 hf h1).1
+  refine ⟨k, s2.strip, hk, h3, ?_⟩
+  simp only [runLoop] at h
+  cases hs : step body fuel s2 with
+  | ok s3 => rw [hs] at h; cases h
+  | crash y s3 =>
+    rw [hs] at h
+    cases h
+    exact Or.inl (step_stripBy_st _ body fuel s2 s' (by rw [hs]; rfl))
+  | empty =>
+    rw [hs] at h
+    simp only [Option.isSome_some, if_true] at h
+    cases h
+    right
+    refine ⟨?_, rfl⟩
+    have := step_stripBy (fun _ => true) body fuel s'
+    unfold step at hs
+    cases hq : popMin s'.agenda with
+    | none => rw [hq] at this; exact this
+    | some qr =>
+      rw [hq] at hs
+      simp only at hs
+      split at hs
+      · cases hs
+      · have := closeEvent_st (List.foldl (runCb body fuel qr.1.ev) { s := openEvent s' qr.1 qr.2 } ‹List Cb›) qr.1.ev
+        rw [hs] at this
+        cases this
+  | stopped o s3 =>
+    rw [hs] at h
+    simp only at h
+    have hs3 : s3 = s' := by
+      unfold onStop at h
+      split at h
+      · cases h; rfl
+      · split at h <;> cases h
+    subst hs3
+    exact Or.inl (step_stripBy_st _ body fuel s2 s3 (by rw [hs]; rfl))
